@@ -173,6 +173,20 @@ def run(ctx):
             ctx.distinct.add_rows(np.full(size, version), loge, beta, u)
             if version == 3 and bi <= 2:
                 ctx.sample({"version": version, "batch": size, "composition": comp, "first_event": {"log_e_nu": float(loge[0]), "beta_rad": float(beta[0]), "u": float(u[0]), "E_tau_GeV": float(E_tau[0])}})
+            # the order the simulation uses: exit probability first, then the energy, on the same arrays;
+            # the energy of every event must be the one from pristine arrays (the exit-probability step
+            # must not leave anything behind that changes which branch an angle takes)
+            if size <= 8193:
+                try:
+                    b1, e1 = b0.copy(), e0.copy()
+                    tau.tau_exit_prob(b1, e1)
+                    E_seq = np.asarray(tau.tau_energy(b1, e1, u0.copy()))
+                    ctx.count("pipeline", size)
+                    if E_seq.tobytes() != np.asarray(E_tau).tobytes():
+                        d = int(np.flatnonzero(E_seq != np.asarray(E_tau))[0])
+                        ctx.violation("pipeline", f"table v{version}: after tau_exit_prob on the same arrays, tau_energy gives {E_seq[d]!r} GeV for event {d} (logE={e0[d]!r}, beta={b0[d]!r} rad, class {['below','inside','above'][int(cls[d])]}); called alone it gives {np.asarray(E_tau)[d]!r} ({comp} batch of {size})", {"version": version, "size": size, "comp": comp, "beta": float(b0[d]).hex(), "loge": float(e0[d]).hex()})
+                except Exception as e:
+                    ctx.exception("raises", f"table v{version}: tau_exit_prob then tau_energy raised on a {comp} batch of {size}", e, {"version": version, "size": size, "comp": comp})
             # sampler called directly (in-table angles only: that is its contract)
             v = cls == 1
             if v.any() and size <= 8193:
@@ -191,6 +205,13 @@ def run(ctx):
                         e_int = tau.tau_energy(beta, loge)
                     e_exp = tau.tau_energy(beta, loge, np.full(size, c))
                     ctx.count("explicit", size)
+                    if size <= 8193:
+                        with rngctl.stub(rngctl.constant(c)):
+                            e_call = np.asarray(tau(b0.copy(), e0.copy())[2])
+                        ctx.count("call", size)
+                        if e_call.tobytes() != np.asarray(e_exp).tobytes():
+                            d = int(np.flatnonzero(e_call != np.asarray(e_exp))[0])
+                            ctx.violation("pipeline", f"table v{version}: Taus.__call__ with every random number equal to {c!r} returns tau energy {e_call[d]!r} GeV for event {d} (logE={e0[d]!r}, beta={b0[d]!r} rad); tau_energy with the same number gives {np.asarray(e_exp)[d]!r} ({comp} batch of {size})", {"version": version, "size": size, "comp": comp, "c": c})
                     if np.asarray(e_int).tobytes() != np.asarray(e_exp).tobytes():
                         d = int(np.flatnonzero(np.asarray(e_int) != np.asarray(e_exp))[0])
                         ctx.violation("explicit", f"table v{version}: with every random number equal to {c!r}, explicit u and the internal generator differ at event {d} ({e_exp[d]!r} vs {e_int[d]!r}) in a {comp} batch of {size}", {"version": version, "size": size, "comp": comp, "c": c})
@@ -257,7 +278,7 @@ def run(ctx):
                         ctx.violation("reject", f"table v{version}: energy logE={badE!r} outside the table accepted (beta={bb!r}), E_tau={np.asarray(r)[2]!r}", {"version": version, "loge": repr(badE), "beta": float(bb)})
                     except Exception:
                         pass
-    for m in ("forward", "inverse", "range", "monotone", "low", "high", "reject", "explicit", "explicit-spy", "sampler-direct"):
+    for m in ("pipeline", "call", "forward", "inverse", "range", "monotone", "low", "high", "reject", "explicit", "explicit-spy", "sampler-direct"):
         ctx.require(m)
     return ctx.finish(
         rule="per table version: batches of size {1,2,8191,8192,8193,20000} in compositions {all in-table, all below-min, all above-max, mixed 25 % / 80 % / 0.2 % above-max}; (logE, beta) from nodes, cell centres, cell edges and interior; u uniform plus hostile values (denormal .. 1-2^-53) and exact node CDF values, clipped strictly inside the blended row's range; a case is a distinct (version, logE, beta, u)",
